@@ -83,11 +83,26 @@ def rule_derived(ctx, py):
     oracle = si_oracle()
 
     def chain(fn):
+        """symbol -> decomposition, from an if / elif chain of returns or from a literal dict that is subscripted"""
         out = {}
         for n in ast.walk(fn):
             if isinstance(n, ast.If) and isinstance(n.test, ast.Compare) and isinstance(n.test.ops[0], ast.Eq) and \
                     isinstance(n.body[0], ast.Return):
                 out[ast.literal_eval(n.test.comparators[0])] = ast.literal_eval(n.body[0].value)
+        if out:
+            return out
+        for n in ast.walk(fn):
+            if isinstance(n, ast.Dict) and n.keys and all(isinstance(k, ast.Constant) for k in n.keys):
+                try:
+                    d = ast.literal_eval(n)
+                except Exception:
+                    continue
+                par = pyfe.parent(n)
+                name = pyfe.src(par.targets[0]) if isinstance(par, ast.Assign) else None
+                used = any(isinstance(r, ast.Return) and isinstance(r.value, ast.Subscript) and
+                           (pyfe.src(r.value.value) == name or r.value.value is n) for r in ast.walk(fn))
+                if used:
+                    return d
         return out
     vol = chain(inner["get_volume_fundamental_unit"])
     con = chain(inner["get_concentration_fundamental_units"])
@@ -115,35 +130,97 @@ def rule_derived(ctx, py):
     return vol, con
 
 
+def py_rat(e, env, leaves):
+    """rational normal form of a Python arithmetic expression; x ** y is an opaque atom pow(<base>, <exponent>) over
+    the normal forms of its operands; names are inlined from env; everything else is a leaf keyed by its source"""
+    from ..poly import Rat
+    if isinstance(e, ast.Constant) and isinstance(e.value, (int, float)) and not isinstance(e.value, bool):
+        return Rat.const(Fraction(repr(e.value)) if isinstance(e.value, float) else e.value)
+    if isinstance(e, ast.Name) and e.id in env:
+        return env[e.id]
+    if isinstance(e, ast.BinOp):
+        if isinstance(e.op, ast.Pow):
+            b, x = py_rat(e.left, env, leaves), py_rat(e.right, env, leaves)
+            return Rat.sym("pow(%r,%r)" % (b, x))
+        l, r = py_rat(e.left, env, leaves), py_rat(e.right, env, leaves)
+        if isinstance(e.op, ast.Add):
+            return l + r
+        if isinstance(e.op, ast.Sub):
+            return l - r
+        if isinstance(e.op, ast.Mult):
+            return l * r
+        if isinstance(e.op, ast.Div):
+            return l / r
+    if isinstance(e, ast.UnaryOp) and isinstance(e.op, ast.USub):
+        return -py_rat(e.operand, env, leaves)
+    t = pyfe.src(e)
+    leaves[t] = e
+    return Rat.sym(t)
+
+
 def rule_keys(ctx, py):
     R = "C06.KEYS"
+    from ..poly import Rat
     f = py.fn("units.compute_conversion_factor")
     loops = [n for n in ast.walk(f) if isinstance(n, ast.For)]
     ctx.need(len(loops) == 1 and isinstance(loops[0].target, ast.Name), R, "component loop not found")
     k = loops[0].target.id
     src_, dst_, dim_ = pyfe.params(f)
-    ctx.check(pyfe.src(loops[0].iter) in ("%s.keys()" % src_, "%s.keys()" % dim_, "['space', 'time', 'quantity']"), R,
-              loops[0], f._qual, "for %s in %s" % (k, pyfe.src(loops[0].iter)), "space, time and quantity", "")
-    st = loops[0].body
-    ok = len(st) == 1 and isinstance(st[0], ast.AugAssign) and isinstance(st[0].op, ast.Mult)
-    ctx.need(ok, R, "factor accumulation `f *= ...` not found")
-    v = st[0].value
-    want = "(_units_conversion_dict[{k}][{s}[{k}]] / _units_conversion_dict[{k}][{d}[{k}]]) ** {e}[{k}]".format(
-        k=k, s=src_, d=dst_, e=dim_)
-    ctx.check(pyfe.src(v) == want, R, st[0], f._qual, pyfe.src(st[0]), "(source / destination) ** exponent, all of "
-              "component %s" % k, "the factor is not (scale of source / scale of destination) ** exponent of one and "
-              "the same component")
-    subs = [x for x in ast.walk(v) if isinstance(x, ast.Subscript) and isinstance(x.slice, ast.Name)]
-    ctx.check(all(x.slice.id == k for x in subs) and len(subs) == 5, R, st[0], f._qual, "all 5 lookups use key %s" % k, "", "a lookup uses another key")
-    init = [n for n in f.body if isinstance(n, ast.Assign) and pyfe.src(n) == "f = 1"]
+    ctx.check(pyfe.src(loops[0].iter) in ("%s.keys()" % src_, "%s.keys()" % dim_, "%s.keys()" % dst_,
+                                         "['space', 'time', 'quantity']"), R,
+              loops[0], f._qual, "for %s in %s" % (k, pyfe.src(loops[0].iter)), "space, time and quantity", "the loop does "
+              "not range over the three components")
+    # symbolic execution of one iteration: the running product after the iteration as a function of the one before
+    acc = None
+    for st in f.body:
+        if isinstance(st, ast.Assign) and isinstance(st.targets[0], ast.Name) and isinstance(st.value, ast.Constant) and \
+                st.value.value == 1:
+            acc = st.targets[0].id
+    ctx.need(acc is not None, R, "running product initialised to 1 not found")
+    F0 = Rat.sym("F")
+    env = {acc: F0}
+    leaves = {}
+    skipped = []
+    for st in loops[0].body:
+        if isinstance(st, ast.If) and len(st.body) == 1 and isinstance(st.body[0], ast.Continue) and not st.orelse:
+            skipped.append(st)
+            continue
+        if isinstance(st, ast.Assign) and len(st.targets) == 1 and isinstance(st.targets[0], ast.Name):
+            env[st.targets[0].id] = py_rat(st.value, env, leaves)
+        elif isinstance(st, ast.AugAssign) and isinstance(st.target, ast.Name) and isinstance(st.op, (ast.Mult, ast.Div)):
+            v = py_rat(st.value, env, leaves)
+            env[st.target.id] = env.get(st.target.id, Rat.sym(st.target.id)) * v if isinstance(st.op, ast.Mult) else \
+                env.get(st.target.id, Rat.sym(st.target.id)) / v
+        elif isinstance(st, ast.Expr) and isinstance(st.value, ast.Constant):
+            continue
+        else:
+            ctx.error(R, "compute_conversion_factor: loop statement `%s` not modelled" % pyfe.src(st)[:60])
+    T = "_units_conversion_dict"
+    ratio = Rat.sym("%s[%s][%s[%s]]" % (T, k, src_, k)) / Rat.sym("%s[%s][%s[%s]]" % (T, k, dst_, k))
+    want = F0 * Rat.sym("pow(%r,%r)" % (ratio, Rat.sym("%s[%s]" % (dim_, k))))
+    got = env[acc]
+    ctx.check(got.equals(want), R, loops[0], f._qual, "one iteration: %s <- %r" % (acc, got),
+              "product of (scale of source / scale of destination) ** exponent, all of component %s" % k,
+              "after one iteration the running product is %r, expected F * (source/destination)**exponent of the same "
+              "component: the factor is not the product over the three base kinds" % (got,))
+    for st in skipped:
+        # skipping a component is sound only when its ratio is 1, i.e. same unit on both sides
+        t = pyfe.src(st.test).replace(" ", "")
+        ok = t in ("%s[%s]==%s[%s]" % (src_, k, dst_, k), "%s[%s]==%s[%s]" % (dst_, k, src_, k), "%s[%s]==0" % (dim_, k))
+        ctx.check(ok, R, st, f._qual, "skip when " + pyfe.src(st.test), "the skipped factor is 1", "a component is skipped "
+                  "although its factor need not be 1")
     rets = [r for r in ast.walk(f) if isinstance(r, ast.Return)]
-    ctx.check(len(init) == 1 and len(rets) == 1 and pyfe.src(rets[0].value) == "f", R, f, f._qual, "product starts at 1 and is returned", "", "")
+    ctx.check(len(rets) == 1 and pyfe.src(rets[0].value) == acc and pyfe.parent(rets[0]) is f, R, f, f._qual,
+              "the product is returned after the loop", "", "")
     g = py.fn("units.convert_value")
     rets = [r for r in ast.walk(g) if isinstance(r, ast.Return)]
     ps = pyfe.params(g)
-    ctx.check(len(rets) == 1 and pyfe.src(rets[0].value) == "%s * compute_conversion_factor(%s, %s, %s)" % tuple(ps), R,
-              g, g._qual, pyfe.src(rets[0]), "value x factor(source, destination, dimension)", "arguments permuted")
-    ctx.floor(R, 5)
+    lv = {}
+    gr = py_rat(rets[0].value, {}, lv) if len(rets) == 1 else None
+    wantg = Rat.sym(ps[0]) * Rat.sym("compute_conversion_factor(%s, %s, %s)" % tuple(ps[1:]))
+    ctx.check(gr is not None and gr.equals(wantg), R, g, g._qual, pyfe.src(rets[0]) if rets else "?", "value x factor(source, "
+              "destination, dimension)", "arguments permuted or the value not multiplied by the factor")
+    ctx.floor(R, 4)
 
 
 def rule_labels(ctx, py, vol, con):
